@@ -106,6 +106,9 @@ impl Model {
         if let Some(r) = r { if self.n[r].parent != Some(p) { errs.push(E::NotFound); } }
         // a document holds at most one element: a second one is refused (moving the one it has is fine)
         if pk == K::Document && ck == K::Element { if let Some(e) = self.doc_element(p) { if e != c { errs.push(E::HierarchyRequest); } } }
+        // ... and its element comes after its document type declaration (the prolog order of XML; DOM Level 1 lets the
+        // implementation refuse children a node "does not allow")
+        if pk == K::Document && ck == K::Element { if let Some(r) = r { if let Some(pos) = self.n[p].children.iter().position(|&x| x == r) { if self.n[p].children[pos..].iter().any(|&x| self.n[x].kind == K::Doctype) { errs.push(E::HierarchyRequest); } } } }
         // a Document node has no owner document: WRONG_DOCUMENT is as defensible as the other classes when one is passed
         if !errs.is_empty() && (ck == K::Document || r.map(|r| self.n[r].kind == K::Document).unwrap_or(false)) { errs.push(E::WrongDocument); }
         if !errs.is_empty() { errs.sort(); errs.dedup(); return Expect::err(errs); }
